@@ -34,4 +34,9 @@ theorem observers_generated :
 /-- nothing under `nir/` keeps state between calls that two results could share -/
 theorem no_shared_state_generated : ObserverEffects.sharedState = [] := by decide
 
+/-- no class under `nir/` redefines attribute access, copying or hashing, and neither the observers nor the module-level
+functions of the reader / writer / shape utilities are wrapped by a decorator: what the bodies read by T16, T13, T18 and T19 say
+is what runs -/
+theorem no_hooks_generated : ObserverEffects.hooks = [] := by decide
+
 end NirVerif.C17
